@@ -99,9 +99,22 @@ class Event:
 class Path:
     def __init__(self, kind, pc, ret, events, detail="", frame=None):
         self.kind, self.pc, self.ret, self.events, self.detail, self.frame = kind, pc, ret, events, detail, frame
+        self.state = None
 
     def cond(self):
         return z3.And(*self.pc) if self.pc else z3.BoolVal(True)
+
+
+def _same(a, b):
+    if isinstance(a, z3.ExprRef) and isinstance(b, z3.ExprRef):
+        return a.sort() == b.sort() and z3.simplify(a).eq(z3.simplify(b))
+    if isinstance(a, Ptr) and isinstance(b, Ptr):
+        return a.node.name == b.node.name
+    if isinstance(a, Node) and isinstance(b, Node):
+        return a.name == b.name and set(a.kids) == set(b.kids) and all(_same(a.kids[k].val if a.kids[k].val is not None else a.kids[k], b.kids[k].val if b.kids[k].val is not None else b.kids[k]) for k in a.kids)
+    if isinstance(a, Opaque) and isinstance(b, Opaque):
+        return a.term.eq(b.term)
+    return a is b
 
 
 class Unsupported(Exception):
@@ -491,7 +504,13 @@ class Executor:
                 ov = z3.Not(z3.BVSubNoUnderflow(va, vb, sg)) if not sg else z3.Or(z3.Not(z3.BVSubNoOverflow(va, vb)), z3.Not(z3.BVSubNoUnderflow(va, vb, True)))
             else:
                 r = va * vb
-                ov = z3.Not(z3.BVMulNoOverflow(va, vb, sg)) if not sg else z3.Or(z3.Not(z3.BVMulNoOverflow(va, vb, True)), z3.Not(z3.BVMulNoUnderflow(va, vb)))
+                # portable encoding (cvc5 has no bvumul_noovfl): widen to 2w and compare
+                if sg:
+                    wide = z3.SignExt(w, va) * z3.SignExt(w, vb)
+                    ov = wide != z3.SignExt(w, r)
+                else:
+                    wide = z3.ZeroExt(w, va) * z3.ZeroExt(w, vb)
+                    ov = z3.Extract(2 * w - 1, w, wide) != z3.BitVecVal(0, w)
             k0 = Node(n.name + ".0", None)
             k0.val = r
             k1 = Node(n.name + ".1", "bool")
@@ -589,6 +608,73 @@ class Executor:
         out = []
         self._explore(st, 0, body, body.order[0], {}, out, None)
         return out
+
+    def run_coroutine(self, body, max_states=12):
+        """Explore a coroutine body state by state. State 0 (unresumed) starts from lazily symbolic captures; for every
+        suspension `discriminant = k` reached, the values saved in the variant#k fields are recorded, and state k is then
+        explored from exactly those saved values (fields on which predecessors disagree stay unconstrained).
+        Returns list[Path]; each path carries .state (the resume state it started from)."""
+        self.ctx.encoded_bodies.add(body.name)
+        all_paths = []
+        snapshots = {}      # k -> {key: value} | None (conflict -> havoc)
+        done = set()
+        queue = [0]
+        while queue and len(done) < max_states:
+            k = queue.pop(0)
+            if k in done:
+                continue
+            done.add(k)
+            snap = snapshots.get(k) or {}
+
+            def pre(ex, st, b, k=k, snap=snap):
+                pin = st["mem"][(0, b.params[0][0])]
+                p0 = ex.child(pin, 0, b.params[0][1] and "&mut S")
+                state = ex.pointee(p0)
+                d = Node(state.name + ".discr", "isize")
+                d.val = z3.BitVecVal(k, 64)
+                state.kids["discr"] = d
+                for key, val in snap.items():
+                    kn = Node(f"{state.name}.{':'.join(map(str, key))}", None)
+                    ex.write(kn, val)
+                    kn.name = f"{state.name}.{':'.join(map(str, key))}"
+                    state.kids[key] = kn
+            paths = self.run(body, pre=pre)
+            for p in paths:
+                p.state = k
+                all_paths.append(p)
+                if p.kind != "return" or p.frame is None:
+                    continue
+                st = p.frame
+                pin = st["mem"][(0, body.params[0][0])]
+                state = self.pointee(self.child(pin, 0, None))
+                dn = state.kids.get("discr")
+                if dn is None or not z3.is_bv_value(z3.simplify(dn.val)):
+                    continue
+                k2 = z3.simplify(dn.val).as_long()
+                if k2 in (1, 2):
+                    continue  # returned / panicked
+                vname = f"variant#{k2}"
+                cur = {key: self.read_node(n) for key, n in state.kids.items() if isinstance(key, tuple) and key[0] == vname}
+                if k2 == k:
+                    # re-suspension in the same state: saved fields must be unchanged, else drop the knowledge
+                    prev = snapshots.get(k2)
+                    if prev is not None:
+                        for key in list(prev):
+                            if key in cur and not _same(cur[key], prev[key]):
+                                del prev[key]
+                    continue
+                if k2 not in snapshots:
+                    snapshots[k2] = cur
+                else:
+                    prev = snapshots[k2]
+                    for key in list(prev):
+                        if key not in cur or not _same(cur[key], prev[key]):
+                            del prev[key]
+                    if k2 in done:
+                        done.discard(k2)   # knowledge weakened: explore again
+                if k2 not in queue and k2 not in done:
+                    queue.append(k2)
+        return all_paths
 
     def feasible(self, pc):
         if not self.ctx.solver_prune:
